@@ -225,6 +225,27 @@ func tMul(a, b string) string {
 }
 
 func tSel(arr, i string) string {
+	// select over a store chain with numeral indices folds syntactically
+	if n, ok := isIntLit(i); ok {
+		cur := arr
+		for strings.HasPrefix(cur, "(store ") {
+			a, idx, v, ok2 := splitStore(cur)
+			if !ok2 {
+				break
+			}
+			m, lit := isIntLit(idx)
+			if !lit {
+				break
+			}
+			if m == n {
+				return v
+			}
+			cur = a
+		}
+		if cur != arr && strings.HasPrefix(cur, "((as const ") {
+			arr = cur
+		}
+	}
 	// select of a constant array folds to its element
 	if strings.HasPrefix(arr, "((as const ") {
 		depth := 0
@@ -316,4 +337,19 @@ func smtSym(s string) string {
 		}
 	}
 	return b.String()
+}
+
+// splitStore splits "(store A I V)" into its three arguments.
+func splitStore(t string) (a, i, v string, ok bool) {
+	body := t[len("(store ") : len(t)-1]
+	n1 := sortEnd(body)
+	if n1 >= len(body) {
+		return
+	}
+	rest := strings.TrimLeft(body[n1:], " ")
+	n2 := sortEnd(rest)
+	if n2 >= len(rest) {
+		return
+	}
+	return body[:n1], rest[:n2], strings.TrimLeft(rest[n2:], " "), true
 }
